@@ -120,6 +120,9 @@ class Report:
         self.obligations = [o for o in self.obligations if o["status"] != "known-finding"]
         nob = len(self.obligations)
         ndis = sum(1 for o in self.obligations if o["status"] == "discharged")
+        if os.environ.get("VERIF_DUMP_OBLIGATIONS"):  # debugging aid: the names of all obligations of this run, one per line
+            with open(os.environ["VERIF_DUMP_OBLIGATIONS"], "w", encoding="utf8") as f:
+                f.write("\n".join(f"{o['name']}\t{o['status']}" for o in self.obligations) + "\n")
         by_backend = {}
         for o in self.obligations:
             if o["status"] == "discharged":
